@@ -239,3 +239,22 @@ def c10(ctx):
                     assumptions=["TLC/SANY and the JVM", "SegRules (C19) for CanClose/Equal", "descriptor fields are logged from the real getters",
                                  "errors other than no-PTS / duplicate / signal-id-not-found are collapsed with success (the property does not name them)",
                                  "'was open immediately before' is read as 'was on the tracker's stack' (a pending breakaway is on the stack although Open() hides it)"])
+
+
+# ---------------------------------------------------------------- C04
+
+@prop("C04", "Trace_C04")
+def c04(ctx):
+    thorough = ctx.tier == "thorough"
+    V.mc(ctx, "MC_C04", cfg="MC_C04_thorough.cfg" if thorough else "MC_C04.cfg", workers=12)
+    summ = V.gen_traces(ctx, shards=12)
+    V.validate(ctx, "Trace_C04", summ, V.default_sig, par=12)
+    return V.finish(ctx, "model_checking",
+                    rule="MC: Dec(Enc(v)) = v, ISO bit positions, and 'decoding ignores reserved/marker/prefix bits' on 99 bases (single bits, 2^k-1, mixed) x ext values (9 quick / all 299 thorough). "
+                         "B3: InsertPCR/ExtractPCR/InsertPTS/gots.ExtractTime/pes.ExtractTime on single-bit and 2^k-1 patterns, every ext for sampled bases, limits +-2, random values, "
+                         "prior buffer contents 0x00/0xFF/random with two trailing guard bytes, random byte strings and their single reserved/marker-bit flips; each written byte string and decoded value "
+                         "validated by TLC against Timecodes (module Wide for 42-bit arithmetic). End-to-end clauses are validated in C03 (SetPCR/PCR, SetOPCR/OPCR) and C11 (PTS/DTS in PES headers). "
+                         "class = (operation, top bit of the value)",
+                    trace_module="Trace_C04", sigfn=V.default_sig,
+                    assumptions=["TLC/SANY and the JVM", "module Wide (checked against TLC integers by MC_Wide)",
+                                 "the 4-bit PTS prefix is not constrained (the three legal PES prefixes differ); marker bits must be 1"])
